@@ -60,8 +60,12 @@ impl TryFrom<&str> for TopicName {
             return Err(SeliumError::ParseTopicNameError);
         }
 
+        // `get` rather than indexing: the first character may be wider than one byte
         #[cfg(not(feature = "__notopiccheck"))]
-        if value[1..].starts_with(RESERVED_NAMESPACE) {
+        if value
+            .get(1..)
+            .is_some_and(|v| v.starts_with(RESERVED_NAMESPACE))
+        {
             return Err(SeliumError::ReservedNamespaceError);
         }
 
